@@ -60,6 +60,14 @@ Theorem C13_map_methods_hold_the_lock : ws_map_methods_hold_the_lock = true.
 Proof. reflexivity. Qed.
 Print Assumptions C13_map_methods_hold_the_lock.
 
+(* ... and no such method calls, while it holds the mutex, another method that acquires it: Go's
+   RWMutex is not reentrant (a recursive read lock deadlocks as soon as a writer -- the reader
+   goroutine handling `complete`, a concurrent Subscribe or Unsubscribe -- queues up between the two
+   acquisitions), and Rt/Ws.v's atomic map steps have no such nested acquisition *)
+Theorem C13_map_methods_do_not_reenter_the_lock : ws_map_methods_do_not_reenter_the_lock = true.
+Proof. reflexivity. Qed.
+Print Assumptions C13_map_methods_do_not_reenter_the_lock.
+
 (* GLOBAL liveness.  The scheduler (thread steps and a helpful application that keeps receiving)
    plays against an adversary that decides, adaptively, which connection operations fail:
    [wins P s] = it can drive s into P whatever the adversary does.
